@@ -996,10 +996,10 @@ func main() {
 		maxMsgs, maxEx = 3, 14
 		deadline = time.Now().Add(40 * time.Minute)
 	}
-	// the adapter allocates a fresh ~1 MB compressor per compressed message: without this the collector runs every few cases
+	// the adapter allocates a fresh ~1 MB compressor per compressed message while the live heap is tiny: with the
+	// default GOGC the collector would run every few cases
 	if os.Getenv("GOGC") == "" {
-		debug.SetGCPercent(-1)
-		debug.SetMemoryLimit(2 << 30)
+		debug.SetGCPercent(800)
 	}
 	if os.Getenv("C11_BENCH") != "" {
 		bench(maxEx)
@@ -1105,6 +1105,7 @@ func main() {
 		"deflate means raw DEFLATE (compress/flate), the repository's own convention; snappy sources use the framing (stream) format, the only one the adapter can decode",
 		"Message(nil,true) after the last message is accepted at the processor as the API's marker of a bare end-of-stream (DESIGN.md interpretation); it must not create a message at the destination",
 		"source payloads are produced with compression level BestSpeed so that the destination's bytes legitimately differ from the source's; equality is judged on decoded messages, flags and container",
+		"the 70 000-byte messages are compressible (about 1.6 KB on the wire when compressed): a stream is long on the wire only through its uncompressed messages, long after decompression through its compressed ones",
 		"DATA frames larger than the default max frame size are fed to the processor when a cut set leaves them whole (the Processor API does not bound them)",
 	}
 	rep.Finish()
